@@ -477,6 +477,45 @@ def main():
             ctx.case(cid, {"constructor": fam + "." + op, "k": k, "explicit_vs_global": dev, "sensitivity_to_orders": sens})
             if dev > 1e-12:
                 ctx.violation("explicit_parameters_not_honoured:%s.%s:%s" % (fam, op, kcls), "%s: explicit (6,5) differs from the same values set globally by %.3e (orders change the matrix by %.3e)" % (cid, dev, sens), cid)
+    # potential and far-field constructors keep no parameter object (the order is consumed into quadrature points at
+    # construction), so binding is decided on values: explicit P under default globals == parameters=None under globals P,
+    # for every constructor and every wavenumber class (purely imaginary wavenumbers are forwarded to other constructors).
+    psweep = []
+    for fam, ks in (("laplace", [None]), ("helmholtz", [1.3, 0.9j] + ([] if ctx.quick else [0.8 + 0.5j])), ("modified_helmholtz", [0.7])):
+        for op, sp in (("single_layer", dp0s), ("double_layer", p1s)):
+            psweep += [("potential", fam, op, sp, k) for k in ks]
+    if not ctx.quick:
+        for op in ("electric_field", "magnetic_field"):
+            psweep += [("potential", "maxwell", op, rwgs, 1.1), ("far_field", "maxwell", op, rwgs, 1.1)]
+        psweep += [("far_field", "helmholtz", "single_layer", dp0s, 1.3), ("far_field", "helmholtz", "double_layer", p1s, 1.3)]
+    ppts = ctx.rng("ppts").normal(size=(3, 9))
+    ppts = ppts / np.linalg.norm(ppts, axis=0) * 2.7
+    for what, fam, op, sp, k in psweep:
+        cid = "ctor_numeric:%s.%s.%s:k=%s" % (what, fam, op, k)
+        if not ctx.want(cid):
+            continue
+        with ctx.guard(cid, "explicit_vs_global_parameters:" + what):
+            Pex = api.DefaultParameters()
+            Pex.quadrature.regular = 7
+            gfp = api.GridFunction(sp, coefficients=ctx.rng(cid).normal(size=sp.global_dof_count))
+            X = ppts / 2.7 if what == "far_field" else ppts
+
+            def build(par):
+                if what == "far_field":
+                    return np.asarray(O.far_field(api, fam, op, sp, X, k, parameters=par).evaluate(gfp))
+                return np.asarray(O.potential(api, fam, op, sp, X, k, parameters=par).evaluate(gfp))
+
+            set_globals(api, defaults)
+            v_ex = build(Pex)
+            v_def = build(None)
+            set_globals(api, dict(defaults, regular=7))
+            v_gl = build(None)
+            set_globals(api, defaults)
+            dev, sens = O.rel(v_ex, v_gl), O.rel(v_def, v_gl)
+            kcls = "none" if k is None else ("real_k" if np.imag(k) == 0 else ("imaginary_k" if np.real(k) == 0 else "complex_k"))
+            ctx.case(cid, {"constructor": "%s.%s.%s" % (what, fam, op), "k": k, "explicit_vs_global": dev, "sensitivity_to_order": sens}, nontrivial=sens > 1e-9)
+            if dev > 1e-12:
+                ctx.violation("explicit_parameters_not_honoured:%s.%s.%s:%s" % (what, fam, op, kcls), "%s: explicit regular order 7 differs from the same value set globally by %.3e (the order changes the values by %.3e)" % (cid, dev, sens), cid)
     ctx.lap("constructor_sweep")
 
     # ------------------------------------------------------------------ single precision
